@@ -328,6 +328,14 @@ func checkC01(c *fw.Ctx, pc probeCase, recs []reflect.Value, cfg config, out []b
 				c.Violation("wrong-value|"+loc+"|"+vc, fmt.Sprintf("record %d read back into %s as %s, written %s (difference at %s) — %s", i, target, gv.Show(pf(pc, got)), gv.Show(pf(pc, recs[i])), path, desc), detail)
 				break
 			}
+			// the record as the caller still holds it after the whole file has been read (struct copy taken in
+			// the callback, bank never closed)
+			if i < len(res.Retained) {
+				if path, loc, vc := gv.DiffLocus(pf(pc, want), pf(pc, res.Retained[i])); path != "" {
+					c.Violation("wrong-value-once-file-is-read|"+loc+"|"+vc, fmt.Sprintf("record %d was right when delivered, but the copy the caller kept reads %s after ReadFile returned, written %s (difference at %s) — %s", i, gv.Show(pf(pc, res.Retained[i])), gv.Show(pf(pc, recs[i])), path, desc), detail)
+					break
+				}
+			}
 		}
 	}
 }
@@ -573,6 +581,15 @@ func runProbe(c *fw.Ctx, w which, idx int, pc probeCase) {
 		for _, comp := range []string{"null", "snappy"} {
 			runOne(c, w, pc, many, config{comp: comp, bs: 1 << 20, mode: filedrv.ModeFull})
 		}
+		// thousands of identical records in one block: the block compresses at the best ratio the codec can reach
+		// (snappy ~21:1, deflate ~1000:1), which a reader-side plausibility bound must still admit
+		same := make([]reflect.Value, 9000)
+		for i := range same {
+			same[i] = small
+		}
+		for _, comp := range []string{"null", "deflate", "snappy"} {
+			runOne(c, w, pc, same, config{comp: comp, bs: 1 << 22, mode: filedrv.ModeFull})
+		}
 	}
 	if idx%53 == 0 {
 		c.Sample(map[string]interface{}{"type": pc.probe.Name, "static_generic_encoder": pc.newS != nil, "alphabet": len(full), "example_sequence": seqDesc(reps)})
@@ -584,7 +601,7 @@ func rule(tier string, what string) string {
 	if tier == "thorough" {
 		d = "depth<=1 statically (320 generated types through the real generic Encoder[T]) and dynamically; depth 2 (256 expressions × 4 tags) and depth 3 (1024 expressions) dynamically"
 	}
-	return "probe struct types struct{c0; F τ `tag`; c1; c2} with canary fields, τ over 16 leaves {bool,int,int16,int32,int64,float32,float64,string,[]byte,time.Time,null.Int/Bool/Float/String/Time,Rec} and wrappers {*τ,[]τ,map[string]τ,struct{X τ}}: " + d + "; per type: every value sequence of length<=2 over the full value alphabet, every length-3 sequence over 3 representatives × {null,deflate,snappy} × block size {0,1,size of two records,65536} × every subset of flush positions, reader chunking rotating over {full,1-byte,data+EOF}; 66 multi-field record types (every arrangement of six *int64 / *string fields, and two mixed ones with slices, maps and nested pointers) with 4 value patterns in sequences of <=3 (allocation order inside one record); for the string and []byte leaves also records of 66–70 kB and a 400-record block of >64 KiB (larger than the reader's read-ahead chunk) under every codec; " + what + "; a case is one (type, sequence, configuration); non-trivial = encoding succeeded and the output reached the oracle"
+	return "probe struct types struct{c0; F τ `tag`; c1; c2} with canary fields, τ over 16 leaves {bool,int,int16,int32,int64,float32,float64,string,[]byte,time.Time,null.Int/Bool/Float/String/Time,Rec} and wrappers {*τ,[]τ,map[string]τ,struct{X τ}}: " + d + "; per type: every value sequence of length<=2 over the full value alphabet, every length-3 sequence over 3 representatives × {null,deflate,snappy} × block size {0,1,size of two records,65536} × every subset of flush positions, reader chunking rotating over {full,1-byte,data+EOF}; 66 multi-field record types (every arrangement of six *int64 / *string fields, and two mixed ones with slices, maps and nested pointers) with 4 value patterns in sequences of <=3 (allocation order inside one record); for the string and []byte leaves also records of 66–70 kB a 400-record block of >64 KiB (larger than the reader's read-ahead chunk) and a block of 9000 identical records (best-case compression ratio) under every codec; every record is compared twice: as deep-copied inside the callback, and as a plain struct copy kept by the caller until ReadFile has returned (banks left open); " + what + "; a case is one (type, sequence, configuration); non-trivial = encoding succeeded and the output reached the oracle"
 }
 
 func register(id string, w which, level, what string, assumptions []string) {
